@@ -270,6 +270,7 @@ class Tx:
         t.signatures = self.signatures
         t.skip_calls = self.skip_calls
         t.effects = self.effects
+        t.forward_stores = getattr(self, "forward_stores", False)
         return t
 
     # -- conditions -----------------------------------------------------
@@ -412,7 +413,10 @@ class Tx:
             if isinstance(b, T):
                 raise Unsupported("attribute of tuple")
             if isinstance(b.e, sp.Symbol):
-                return E(self._sym(b.e.name + "." + n.attr))
+                nm = b.e.name + "." + n.attr
+                if getattr(self, "forward_stores", False) and ("@" + nm) in self.env:
+                    return self.env["@" + nm]  # what this very function stored there earlier on the path
+                return E(self._sym(nm))
             return E(sp.Function("attr:" + n.attr)(b.e))
 
         return lift(f, base)
